@@ -24,6 +24,7 @@ type Env struct {
 	specPkg  string
 	freeBind []Val
 	depth    int
+	anyDef   bool // names may resolve to values defined inside the loop body (step contracts at sends)
 }
 
 func (c *FnCtx) newEnv(fr *Frame, st, old *State) *Env {
@@ -499,7 +500,7 @@ func (c *FnCtx) debugName(env *Env, name string) (Val, bool) {
 					continue
 				}
 			}
-			if hdr != nil {
+			if hdr != nil && !env.anyDef {
 				if vi, ok := d.X.(ssa.Instruction); ok && !vi.Block().Dominates(hdr) {
 					continue
 				}
@@ -643,6 +644,26 @@ func (c *FnCtx) indexVal(env *Env, base, idx Val) Val {
 // evalMethod: spec-level call of a read-only library method (protoreflect accessors, pure library methods); it
 // denotes the same uninterpreted function the code's own call is translated to.
 func (c *FnCtx) evalMethod(env *Env, recv Val, name string, args []Val) Val {
+	if it, ok := recv.T.Underlying().(*types.Interface); ok {
+		if cb := c.eng.callbackSpecFor(nil, shortIfaceName(recv.T)+"."+name); cb != nil && cb.Pure {
+			for i := 0; i < it.NumMethods(); i++ {
+				if m := it.Method(i); m.Name() == name {
+					sig := m.Type().(*types.Signature)
+					for k := range args {
+						if k < sig.Params().Len() {
+							pt := sig.Params().At(k).Type()
+							if args[k].E == "NIL" {
+								args[k] = Val{T: pt, E: c.ty.Zero(pt)}
+							}
+							args[k].T = pt
+						}
+					}
+					r := c.uninterp(nil, "cb$"+cb.Name, append([]Val{recv}, c.pureArgs(env.st, args)...), sig.Results())
+					return *r
+				}
+			}
+		}
+	}
 	if isProtoreflectType(recv.T) {
 		if it, ok := recv.T.Underlying().(*types.Interface); ok {
 			for i := 0; i < it.NumMethods(); i++ {
